@@ -6,11 +6,14 @@ import (
 	"context"
 	"fmt"
 	"math/rand"
+	"os"
+	"strings"
 	"sync"
 	"sync/atomic"
 	"testing"
 	"time"
 
+	"github.com/pingcap/failpoint"
 	"github.com/pingcap/kvproto/pkg/errorpb"
 	"github.com/pingcap/kvproto/pkg/kvrpcpb"
 	"github.com/tikv/client-go/v2/tikvrpc"
@@ -57,6 +60,13 @@ func runConfig(t *testing.T, r *vrep.Report, tr *vrep.Report, cfg config, nClien
 		return
 	}
 	defer u.Close()
+	if cfg.chaos {
+		// Under topology churn and injected faults the retry loops would spend most of the wall clock in
+		// back-off sleeps (the budget accounting still runs): virtualise the sleeping in these configurations.
+		// The calm configuration (variant 0) keeps real sleeps, so waiting behaves as in production there.
+		_ = failpoint.Enable("tikvclient/fastBackoffBySkipSleep", "return")
+		defer failpoint.Disable("tikvclient/fastBackoffBySkipSleep")
+	}
 	rng := rand.New(rand.NewSource(cfg.seed))
 	// initial layout: a few splits
 	for _, k := range []string{"b", "c\xff", "e"} {
@@ -100,6 +110,12 @@ func runConfig(t *testing.T, r *vrep.Report, tr *vrep.Report, cfg config, nClien
 				}
 				return uni.Action{Kind: uni.KillAfter}
 			}
+			if cfg.chaos && n%23 == 0 {
+				// virtual time keeps flowing with the request stream, so locks of a killed client
+				// (and of slow live ones) do expire on the resolvers' clocks
+				clockMoved.Store(true)
+				return uni.Action{Kind: uni.Pass, Before: func() { u.AdvanceClock(400) }}
+			}
 			if cfg.chaos && n%17 == 0 && chaosEvents.Load() < 60 {
 				chaosEvents.Add(1)
 				k := []byte(keys[frng.Intn(len(keys))])
@@ -128,6 +144,12 @@ func runConfig(t *testing.T, r *vrep.Report, tr *vrep.Report, cfg config, nClien
 			switch x := frng.Intn(1000); {
 			case x < 6:
 				faultsInjected.Add(1)
+				if cfg.backend == uni.Uni && c.Cmd == tikvrpc.CmdCommit {
+					// unistore (trusted as given) does not answer a repeated Commit of an already committed
+					// Lock/Delete primary with success as TiKV does, so a lost Commit response followed by the
+					// sender's retry would look like a definite failure of a committed transaction there
+					return uni.Action{Kind: uni.DropReq}
+				}
 				return uni.Action{Kind: uni.DropResp}
 			case x < 10:
 				faultsInjected.Add(1)
@@ -147,7 +169,7 @@ func runConfig(t *testing.T, r *vrep.Report, tr *vrep.Report, cfg config, nClien
 			wg.Add(1)
 			go func(c *uni.ClientStore, ci, w int) {
 				defer wg.Done()
-				g := &work.Gen{Rng: rand.New(rand.NewSource(cfg.seed*131 + int64(ci*17+w))), Keys: keys, Pessimistic: cfg.pessimistic, Async: cfg.async, OnePC: cfg.one, MaxOps: 6, RollbackPct: 10, BoundedRevUpper: cfg.backend == uni.Uni}
+				g := &work.Gen{Rng: rand.New(rand.NewSource(cfg.seed*131 + int64(ci*17+w))), Keys: keys, Pessimistic: cfg.pessimistic, Async: cfg.async, OnePC: cfg.one, MaxOps: 6, RollbackPct: 10, NoRevScan: cfg.backend == uni.Uni}
 				run := &work.Runner{U: u, C: c, LockWaitMS: 50}
 				for i := 0; i < nTxns; i++ {
 					if c.Net.Killed() {
@@ -203,7 +225,9 @@ func runConfig(t *testing.T, r *vrep.Report, tr *vrep.Report, cfg config, nClien
 		return
 	}
 	for k, kt := range truth.Keys {
-		if kt.Lock != nil && kt.Lock.Type != kvrpcpb.Op_PessimisticLock {
+		// locks without data (pessimistic locks, lock-only prewrites) never block a reader, so reads do not
+		// resolve them; they carry no version and do not affect the truth
+		if kt.Lock != nil && (kt.Lock.Type == kvrpcpb.Op_Put || kt.Lock.Type == kvrpcpb.Op_Del) {
 			r.Inconc("%s: key %q still carries a prewrite lock of %d after recovery", cfg, k, kt.Lock.StartTS)
 			return
 		}
@@ -213,8 +237,30 @@ func runConfig(t *testing.T, r *vrep.Report, tr *vrep.Report, cfg config, nClien
 	}
 	chk := &si.Checker{Truth: truth, Txns: recs, TSOs: u.Log.TSOs(), ClockMoved: clockMoved.Load()}
 	vs := chk.Check()
+	allCalls := u.Log.Calls()
+	notes := u.Log.Notes()
 	for _, v := range vs {
 		d := map[string]any{"config": cfg.String(), "seed": cfg.seed, "witness": v.Detail}
+		if w, ok := v.Detail.(map[string]any); ok {
+			// attach the RPCs of that client (and the driver's topology/clock notes) inside the read's call window
+			cs, okc := w["call_seq"].(int64)
+			rs, okr := w["ret_seq"].(int64)
+			cl, okl := w["client"].(int)
+			if okc && okr && okl {
+				var win []string
+				for _, c := range allCalls {
+					if c.Client == cl && c.Seq >= cs && c.Seq <= rs && len(win) < 60 {
+						win = append(win, fmt.Sprintf("#%d..%d %s region=%d ver=%d %s err=%q regErr=%v :: %.300v => %.300v", c.Seq, c.RetSeq, c.Cmd, c.RegionID, c.RegionVer, c.Action, c.Err, c.RegionErr, c.Req, c.Resp))
+					}
+				}
+				for _, n := range notes {
+					if n.Seq >= cs-50 && n.Seq <= rs && len(win) < 90 {
+						win = append(win, fmt.Sprintf("#%d NOTE %s", n.Seq, n.Text))
+					}
+				}
+				d["rpc_window"] = win
+			}
+		}
 		r.Violate(v.Sig, cfg.String()+": "+v.Msg, d)
 	}
 	// the C04 trace monitor runs over the same execution
@@ -245,6 +291,15 @@ func runConfig(t *testing.T, r *vrep.Report, tr *vrep.Report, cfg config, nClien
 		for _, f := range rec.Failed {
 			r.Count("step_failed:"+string(f.Class), 1)
 		}
+		for _, rd := range rec.Reads {
+			if rd.Err != "" {
+				e := rd.Err
+				if len(e) > 90 {
+					e = e[:90]
+				}
+				r.Count("read_error:"+e, 1)
+			}
+		}
 		if rec.CommitClass != work.ENone && rec.EndKind == "commit" {
 			r.Count("commit_failed:"+string(rec.CommitClass), 1)
 		}
@@ -268,6 +323,7 @@ func runConfig(t *testing.T, r *vrep.Report, tr *vrep.Report, cfg config, nClien
 
 func recoverAll(u *uni.Universe, obs *uni.ClientStore) error {
 	ctx := context.Background()
+	desc := ""
 	for round := 0; round < 6; round++ {
 		txn, err := obs.Begin()
 		if err != nil {
@@ -297,16 +353,32 @@ func recoverAll(u *uni.Universe, obs *uni.ClientStore) error {
 			return err
 		}
 		left := 0
+		desc = ""
 		for _, l := range locks {
-			if l.Type != kvrpcpb.Op_PessimisticLock {
+			if l.Type == kvrpcpb.Op_Put || l.Type == kvrpcpb.Op_Del {
 				left++
 			}
+			desc += fmt.Sprintf(" {key=%q type=%s start=%d primary=%q ttl=%d async=%v minCommit=%d}", l.Key, l.Type, l.StartTS, l.Primary, l.TTL, l.UseAsync, l.MinCommitTS)
 		}
 		if left == 0 {
 			return nil
 		}
 	}
-	return fmt.Errorf("prewrite locks remain after 6 observer rounds")
+	// diagnostics: what the observer did about those transactions, and the state of their primaries
+	locks, _ := u.ScanLocksTruth()
+	for _, l := range locks {
+		if l.Type != kvrpcpb.Op_Put && l.Type != kvrpcpb.Op_Del {
+			continue
+		}
+		tr, _ := u.ReadTruth([][]byte{l.Primary, l.Key})
+		desc += fmt.Sprintf("\n  primary truth: %+v / lock=%+v ; key truth lock=%+v", tr.Keys[string(l.Primary)].Writes, tr.Keys[string(l.Primary)].Lock, tr.Keys[string(l.Key)].Lock)
+		for _, c := range u.Log.Calls() {
+			if c.StartTS == l.StartTS && (c.Client == obs.ID || c.Cmd == tikvrpc.CmdPrewrite || c.Cmd == tikvrpc.CmdPessimisticLock) {
+				desc += fmt.Sprintf("\n  #%d..%d c%d %s %s err=%q regErr=%v :: %.200v => %.200v", c.Seq, c.RetSeq, c.Client, c.Cmd, c.Action, c.Err, c.RegionErr != nil, c.Req, c.Resp)
+			}
+		}
+	}
+	return fmt.Errorf("prewrite locks remain after 6 observer rounds:%s", desc)
 }
 
 func TestVerifC01(t *testing.T) {
@@ -343,6 +415,9 @@ func TestVerifC01(t *testing.T) {
 					c.chaos = true
 				case 2:
 					c.chaos, c.faults, c.kill = true, true, c.backend == uni.Mock || true
+				}
+				if only := os.Getenv("VERIF_C01_ONLY"); only != "" && !strings.Contains(c.String(), only) {
+					continue
 				}
 				t0 := time.Now()
 				runConfig(t, r, tr, c, 3, 3, nTx)
